@@ -133,13 +133,31 @@ def word_hypotheses(w):
     return not any(m(x, _SPACES) for x in w)
 
 
+def colliding_words(salt, stem="cust"):
+    """two words whose six-digit pseudonyms coincide under the salt (birthday search), or None"""
+    seen = {}
+    for i in range(60000):
+        w_ = "%s%d" % (stem, 1000 + i)
+        h_ = hashlib.md5((salt + w_).encode()).hexdigest()[:6]
+        if h_ in seen:
+            return seen[h_], w_
+        seen[h_] = w_
+    return None
+
+
 def words_scope(res, pid, rng, tier):
     sess, fails = Sess(), []
     rounds = 2 * len(WORDLISTS) if tier == "thorough" else len(WORDLISTS) + 3
     plans = []
-    for r in range(rounds):
+    for r in range(rounds + 1):
         words = WORDLISTS[(r + res.seed) % len(WORDLISTS)]         # every list in every run; some lists meet two salts in this process
         salt = SALTS[(5 * r + res.seed) % len(SALTS)]
+        if r == rounds:
+            # two listed words with the same pseudonym: each is replaced by md5(salt + word)[:6] whatever else is listed
+            cp = colliding_words(salt)
+            if not cp:
+                continue
+            words = [cp[1], "zork", cp[0]]
         hyp = all(re.fullmatch(r"[g-zG-Z].*[g-zG-Z]|[g-zG-Z]", w) and not re.search(r"[0-9a-fA-F]{6}", w) and not re.search(r"\s", w) for w in words)
         user_res = None
         if r % 3 == 1:
@@ -239,14 +257,22 @@ def words_scope(res, pid, rng, tier):
     dcw = _tf.mkdtemp(prefix="ncverif_")
     cwd0 = os.getcwd()
     try:
-        for nm, body in (("zurich", "zurich-core uplink ZURICH Zurich\nhostname seattle gw\n"), ("seattle", "unrelated\n"), ("sea", "other\n")):
-            open(os.path.join(dcw, nm), "w").write(body)
+        for nm, body in (("zurich", "zurich-core uplink ZURICH Zurich\nhostname seattle gw\n"), ("seattle", "unrelated\n"), ("sea", "other\n"),
+                         ("utf8.cfg", "hostname zürich-core-01\n description köln uplink ZÜRICH\n")):
+            open(os.path.join(dcw, nm), "w", encoding="utf-8").write(body)
         os.chdir(dcw)
         import contextlib as _cl
         with fa.LogCap(), _cl.redirect_stderr(io.StringIO()):
             _nc.main(["-i", "zurich", "-o", "anonymized.out", "-s", "demoSalt", "-w", "zurich,sea", "-r", "seattle"])
         oc = open(os.path.join(dcw, "anonymized.out")).read()
         res.evaluations += 1
+        with fa.LogCap(), _cl.redirect_stderr(io.StringIO()):
+            _nc.main(["-i", "utf8.cfg", "-o", "utf8.out", "-s", "demoSalt", "-w", "zürich,köln"])
+        ou = open(os.path.join(dcw, "utf8.out"), encoding="utf-8", errors="replace").read()
+        res.evaluations += 1
+        if ci_contains(ou, "zürich") or ci_contains(ou, "köln") or "core-01" not in ou:
+            fails.append({"kind": "a listed sensitive word survives", "entry_point": "command line on a UTF-8 file",
+                          "argv": ["-i", "utf8.cfg", "-o", "utf8.out", "-s", "demoSalt", "-w", "zürich,köln"], "output": ou})
         if ci_contains(oc, "zurich") or "hostname seattle gw" not in oc:
             fails.append({"kind": "a listed sensitive word survives" if ci_contains(oc, "zurich") else "a token that is a reserved word was changed",
                           "argv": ["-i", "zurich", "-o", "anonymized.out", "-s", "demoSalt", "-w", "zurich,sea", "-r", "seattle"],
@@ -631,6 +657,47 @@ def as_scope(res, pid, rng, tier):
         if not ok:
             fails.append({"kind": "text outside listed standalone numbers changed, or a listed standalone number was not replaced",
                           "cfg": cfg.describe(), "line": ln, "output": out})
+    # the same words with other white space between them: only the listed numbers change, every blank and tab stays where it is
+    nw = AS_LISTS[res.seed % len(AS_LISTS)][0]
+    wl_ = ["router bgp %s\n" % nw, "router  bgp   %s\n" % nw, "router\tbgp\t%s\n" % nw, " neighbor 10.0.0.1 remote-as %s\n" % nw,
+           " neighbor  10.0.0.1   remote-as\t%s\n" % nw, "router bgp %s\n" % nw]
+    try:
+        ow_, _ = run_lines(fa.FaCfg(salt="ws", asn=[nw]), wl_)
+        res.evaluations += len(wl_)
+        for a_, b_ in zip(wl_, ow_):
+            if re.sub(r"\d+", "#", a_.replace("10.0.0.1", "ADDR")) != re.sub(r"\d+", "#", b_.replace("10.0.0.1", "ADDR")):
+                fails.append({"kind": "text other than a listed AS number changed (white space between the words)", "as_numbers": [nw], "lines": wl_,
+                              "line": a_, "output": b_})
+                break
+    except Exception as e:  # noqa
+        fails.append({"kind": "AS anonymization raised", "exc": repr(e)[:200]})
+    # a directory run without a salt in which a file in the middle fails: one run, one key - a listed number gets the same replacement in
+    # every file
+    import tempfile as _tf4
+    import shutil as _sh4
+    from netconan.anonymize_files import anonymize_files as _af4
+    d4 = _tf4.mkdtemp(prefix="ncverif_")
+    try:
+        for rel_, body_ in (("a.cfg", "router bgp %s\n" % nw), ("b-bad.bin", None), ("d1/d2/c.cfg", "router bgp %s\n" % nw), ("z.cfg", " remote-as %s\n" % nw)):
+            os.makedirs(os.path.dirname(os.path.join(d4, "in", rel_)), exist_ok=True)
+            if body_ is None:
+                open(os.path.join(d4, "in", rel_), "wb").write(b"\xff\xfe\x00 not text \xc3\x28")
+            else:
+                open(os.path.join(d4, "in", rel_), "w").write(body_)
+        with fa.LogCap():
+            _af4(os.path.join(d4, "in"), os.path.join(d4, "out"), False, False, salt=None, as_numbers=[nw])
+        reps_ = {}
+        for rel_ in ("a.cfg", "d1/d2/c.cfg", "z.cfg"):
+            reps_[rel_] = open(os.path.join(d4, "out", rel_)).read().split()[-1]
+        res.evaluations += 3
+        if len(set(reps_.values())) != 1:
+            fails.append({"kind": "AS replacements of a run without --salt are not keyed by the salt the run generated and reported",
+                          "detail": "one directory run, a failing file in the middle: the same listed number gets different replacements in different files",
+                          "as_number": nw, "replacements_per_file": reps_})
+    except Exception as e:  # noqa
+        fails.append({"kind": "AS anonymization without a salt raised", "exc": repr(e)[:200]})
+    finally:
+        _sh4.rmtree(d4, ignore_errors=True)
     # a run without a salt: the salt that the anonymizer generated (and reports) is the key of its AS replacements too
     from netconan.anonymize_files import FileAnonymizer as _FA
     from netconan.sensitive_item_removal import AsNumberAnonymizer as _AN
@@ -784,7 +851,8 @@ def structure_scope(res, pid, rng, tier):
         punct = {}
         if cfg.pwd and not cfg.words and not cfg.asn:
             for f_ in ("group core {{ password {} }}", "( secret {} )", "[ enable password {} ]", "a ; username bob password 0 {} ;", '"x" password {} "y"',
-                       "peer = {{ pre-shared-key ascii-text {} }}", ", snmp-server community {} RO ,"):
+                       "peer = {{ pre-shared-key ascii-text {} }}", ", snmp-server community {} RO ,", '  key "{}" description "uplink to core"',
+                       'set system login user a authentication secret "{}"; ## "quoted note" end'):
                 s_ = "Zq" + re.sub(r"[^A-Za-z0-9]", "x", L.gen_secret(rng, "text")) + "7w"
                 ln_ = f_.format(s_) + "\n"
                 lines.insert(len(lines) - 1, ln_)
@@ -843,7 +911,7 @@ def structure_scope(res, pid, rng, tier):
                                   "line": a, "output": b})
             if a in punct:
                 ta, tb = a.split(), b.split()
-                k_ = ta.index(punct[a])
+                k_ = next(i_ for i_, t_ in enumerate(ta) if punct[a] in t_)
                 if len(ta) != len(tb) or ta[:k_] + ta[k_ + 1:] != tb[:k_] + tb[k_ + 1:]:
                     fails.append({"kind": "a token that is not a sensitive item changed (punctuation tokens around a secret keyword)", "cfg": cfg.describe(),
                                   "line": a, "output": b})
@@ -879,6 +947,24 @@ def structure_scope(res, pid, rng, tier):
     res.evaluations += 1
     if [x[len(x.rstrip("\r\n")):] for x in o.splitlines(True)] != [x[len(x.rstrip("\r\n")):] for x in t.splitlines(True)]:
         fails.append({"kind": "line terminators changed", "input": t, "output": o})
+    # two listed words with the same pseudonym: a line's output is the same alone and inside a text (it does not depend on which of
+    # the two words was met first)
+    salt_c = SALTS[(res.seed + 4) % len(SALTS)] or "sc"
+    cp = colliding_words(salt_c, stem="core")
+    if cp:
+        cfgc = fa.FaCfg(salt=salt_c, words=[cp[0], cp[1]])
+        tl = ["hostname %s-a\n" % cp[0], "hostname %s-b uplink\n" % cp[1], "description %s to %s\n" % (cp[1], cp[0]), "hostname %s-c\n" % cp[1]]
+        try:
+            whole = anon_text(cfgc, "".join(tl)).split("\n")[:-1]
+            for k_, ln_ in enumerate(tl):
+                alone = anon_text(cfgc, ln_)
+                res.evaluations += 1
+                if alone != whole[k_] + "\n":
+                    fails.append({"kind": "a line anonymized alone differs from the same line inside a text", "cfg": cfgc.describe(), "line": ln_,
+                                  "alone": alone, "in_text": whole[k_], "text": tl})
+                    break
+        except Exception as e:  # noqa
+            fails.append({"kind": "anonymize_io raised", "cfg": cfgc.describe(), "exc": repr(e)})
     return [], fails
 
 
@@ -1359,4 +1445,31 @@ def determinism_scope(res, pid, rng, tier):
     e2 = _run(FileAnonymizer(anon_pwd=False, anon_ip=True, salt=""), text)
     if e1 != e2:
         fails.append({"kind": "salt '' gave different output on two runs", "first": e1, "second": e2})
+    # two directory runs in one process with the same salt and options: the second run's output is what a fresh anonymizer gives for its
+    # input (same bytes as in a process that never saw the first run)
+    import tempfile as _tf3
+    import shutil as _sh3
+    from netconan.anonymize_files import anonymize_files as _af3
+    d3 = _tf3.mkdtemp(prefix="ncverif_")
+    try:
+        tA = "username x password 0 SiteAsecretQ7\nusername y password 0 otherAkey77\nip address 11.22.33.44 255.255.255.0\n"
+        tB = "username z password 0 freshBsecret9\nusername x password 0 SiteAsecretQ7\nntp server 11.22.33.45\n"
+        for site, body in (("A", tA), ("B", tB)):
+            os.makedirs(os.path.join(d3, site, "in"))
+            open(os.path.join(d3, site, "in", "r.cfg"), "w").write(body)
+        with fa.LogCap():
+            for site in ("A", "B"):
+                _af3(os.path.join(d3, site, "in"), os.path.join(d3, site, "out"), True, True, salt="sameSalt", dumpfile=os.path.join(d3, site, "map.txt"))
+        gotB = open(os.path.join(d3, "B", "out", "r.cfg")).read()
+        mapB = sorted(open(os.path.join(d3, "B", "map.txt")).read().split("\n"))
+        refB = anon_text(fa.FaCfg(salt="sameSalt", pwd=True, ip=True), tB)
+        res.evaluations += 2
+        if gotB != refB or any("11.22.33.44\t" in l_ for l_ in mapB):
+            fails.append({"kind": "the output of a run depends on an earlier run in the same process (same salt and options)", "first_run_input": tA,
+                          "second_run_input": tB, "second_run_output": gotB, "output_of_a_fresh_anonymizer": refB,
+                          "second_run_map_lists_an_address_of_the_first_run": any("11.22.33.44\t" in l_ for l_ in mapB)})
+    except Exception as e:  # noqa
+        fails.append({"kind": "anonymize_io raised", "detail": "two directory runs in one process", "exc": repr(e)[:200]})
+    finally:
+        _sh3.rmtree(d3, ignore_errors=True)
     return [], fails
